@@ -24,6 +24,12 @@ byname : every name list of width 2 (9-name alphabet) and 3 (8 names; thorough: 
          name as left or right key, aggregate / window over=name must all use the FIRST column whose stored name equals
          the key (columns carry distinct values and distinct sort orders, so the column used is identifiable).
          (t[<int row>, name] goes through Row attribute lookup, i.e. the accessor, like item assignment: not failed.)
+digit  : names whose first alphanumeric character is a DIGIT that follows punctuation / space / underscores ('$100', '#1 seed',
+         '(2023) revenue', '_7up', ' 9lives', '__3', '-5', '7') together with their would-be accessors as stored names ('c100',
+         '100'), 'a' and None: every name list of width <= 2 over the 12 names and of width 3 over 7 of them (thorough: all 12), and
+         every rename_column / view-rename / replacement / append history of length 1 (thorough: 2) that introduces such a name.
+         The accessor is the documented one ('c100', 'c1_seed', 'c2023_revenue', 'c7up', 'c9lives'): a valid identifier that starts
+         with a lower-case letter (checked on every case of every block), resolving through every channel.
 
 Oracle (from the statement only): a plain list of stored names is the model; the advertised
 accessor set is whatever dir(t) adds over dir(Table()); it has to be a set of distinct valid
@@ -210,6 +216,10 @@ def check(make, label):
             F('C17:dir:not-identifier', f'advertised accessor {n!r} is not a valid identifier', 'identifier', n)
         elif n in PUBLIC:
             F('C17:dir:shadows-public', f'advertised accessor {n!r} shadows a public Vector/Table attribute', None, n)
+        elif not ('a' <= n[0] <= 'z'):
+            # lower-case; outer underscores stripped; leading digit prefixed with c; unnamed -> colN_: the first character is a letter
+            F('C17:dir:not-letter-initial', f'advertised accessor {n!r} does not start with a lower-case letter (outer underscores are '
+              f'stripped and a leading digit is prefixed with c)', 'a letter first', n)
     if len(adv) != ncols:
         F('C17:dir:count-mismatch', f'{len(adv)} advertised accessors {adv} for {ncols} columns '
           f'(not distinct / not one per column)', ncols, adv)
@@ -591,8 +601,40 @@ def eval_byname(case):
     return fails
 
 
+# ---------------------------------------------------------------------------------------------
+# names whose first alphanumeric character is a digit preceded by punctuation / space / underscore
+# ---------------------------------------------------------------------------------------------
+DIGIT_CORE = ['$100', '#1 seed', '(2023) revenue', '_7up', ' 9lives', 'c100', 'a']
+DIGIT_ALPHABET = DIGIT_CORE + ['__3', '-5', '7', '100', None]
+DIGIT_EXPECT = {'$100': 'c100', '#1 seed': 'c1_seed', '(2023) revenue': 'c2023_revenue', '_7up': 'c7up', ' 9lives': 'c9lives',
+                '__3': 'c3', '-5': 'c5', '7': 'c7', '100': 'c100'}
+DIGIT_BASES = [['a'], ['a', 'b'], ['c100', 'a'], ['$100', 'x'], ['_7up', ' 9lives']]
+DIGIT_NEW = ['$100', '_7up', ' 9lives', '#1 seed']
+
+
+def digit_cases(tier):
+    q = tier == 'quick'
+    for w in (1, 2):
+        for combo in itertools.product(DIGIT_ALPHABET, repeat=w):
+            yield {'op': 'static', 'names': lit(list(combo)), 'blk': 'digit'}
+    for combo in itertools.product(DIGIT_CORE if q else DIGIT_ALPHABET, repeat=3):
+        yield {'op': 'static', 'names': lit(list(combo)), 'blk': 'digit'}
+    for base in DIGIT_BASES:
+        w = len(base)
+        for op1 in ops_for(w, DIGIT_NEW):
+            yield {'op': 'hist', 'names': lit(base), 'hist': lit([op1]), 'blk': 'digit'}
+            if not q:
+                w2 = w + 1 if op1[0] == 'ap' else w
+                for op2 in ops_for(w2, DIGIT_NEW[:2] + ['z']):
+                    yield {'op': 'hist', 'names': lit(base), 'hist': lit([op1, op2]), 'blk': 'digit'}
+
+
+assert all(san_base(k) == v for k, v in DIGIT_EXPECT.items())
+
+
 def cases(tier, seed):
     yield from _cases_v1(tier, seed)
+    yield from digit_cases(tier)
     yield from wide_cases(tier)
     yield from rename_first_cases(tier)
     yield from byname_cases(tier)
@@ -669,6 +711,8 @@ def nontrivial(case):
         else:
             sig.append('plain')
     h = tuple(o[0] for o in ev(case['hist'])) if case['op'] == 'hist' else ()
+    if case.get('blk') == 'digit':
+        return ('digit', case['names'], case.get('hist'))
     if case['op'] == 'byname':
         # a key that is one column's stored name and another column's accessor (twin / generated look-alike)
         accs = accessors_of(names, [])
@@ -692,11 +736,15 @@ if __name__ == '__main__':
               'row, column_names) on a fresh replica; 11-13 column tables with same-accessor groups around the elided middle of '
               'repr; rename_column on each member of same-accessor groups (+ one more operation); string indexing / tuple '
               'selection / rows x name / sort_by / join keys / partition keys by stored names that are other columns\' accessors; '
+              'names whose first alphanumeric character is a digit after punctuation / space / underscore ($100, #1 seed, (2023) revenue, '
+              '_7up, " 9lives") statically (width <= 3) and introduced by renames / appends: accessor = c + digits..., letter-initial; '
               'distinct = (per-column sanitisation class pattern, op kinds)',
          bound=lambda tier: {'static_width': 3 if tier == 'quick' else 4, 'alphabet': len(ALPHABET),
                              'hist_base_width': 2, 'hist_len': 2,
                              'hist_alphabet': len(HIST_BASE['quick' if tier == 'quick' else 'thorough']),
                              'new_names': len(HIST_NEW['quick' if tier == 'quick' else 'thorough']),
                              'wide_widths': WIDE_WIDTHS, 'wide_groups': len(WIDE_GROUPS), 'rename_first_bases': len(RC_BASES),
-                             'byname_alphabet': len(BYNAME_ALPHABET), 'byname_width': 3 if tier == 'quick' else 4},
+                             'byname_alphabet': len(BYNAME_ALPHABET), 'byname_width': 3 if tier == 'quick' else 4,
+                             'digit_alphabet': [repr(n) for n in DIGIT_ALPHABET], 'digit_width3_alphabet': len(DIGIT_CORE if tier == 'quick' else DIGIT_ALPHABET),
+                             'digit_hist_len': 1 if tier == 'quick' else 2},
          nontrivial=nontrivial)
